@@ -375,6 +375,7 @@ def run_C11(ctx):
         for a, d, dc, lz in itertools.product([{}, {"MIMALLOC_DISALLOW_ARENA_ALLOC": "1"}, {"MIMALLOC_ARENA_RESERVE": "64MiB"}], ["10", "0", "-1"], ["1", "0"], [{}, LAZY]):
             for v in ("rel", "dbg", "sec"):
                 plan.append((v, "footprint", [], envs(a, {"MIMALLOC_PURGE_DELAY": d, "MIMALLOC_PURGE_DECOMMITS": dc, "VF_RESET_ZERO": "1"}, lz)))
+            if dc == "1": plan.append(("rel", "footprint", [], envs(a, {"MIMALLOC_PURGE_DELAY": d, "VF_IGNORE_HINT": "1"}, lz)))
     return os_property(ctx, plan, level="model_checking", parallel=4,
         rule="(configurations with VF_IGNORE_HINT=1: the modelled OS does not honour address hints -- a hinted mapping lands 68 KiB past a 32 MiB boundary --, so that mimalloc has to give it back, over-allocate and trim) (fault runs of the workload arenas: 32 x mi_reserve_os_memory_ex(32 MiB) -- the arena descriptors outgrow the static metadata area so that later ones are one-page OS allocations -- with every OS call refused once / persistently from there on: a region that was mapped but could not be registered must be unmapped again; after recovery + free-all + forced collect nothing outside arenas may stay mapped) (workload staggered: 20 + 100 + 40 MiB; the 100 MiB block is released and force-collected while the lower block is live, then the next, then everything) 9 allocate-everything/free-everything workloads (small, large, huge 17/40/100/33 MiB, over-aligned huge up to 128 MiB alignment, 8 and 40 sequential threads that exit with live blocks, heaps, realloc chains, mixed) x option configurations (arenas enabled / disabled / too small, purge delay 10/0/-1, decommit or reset, eager or lazy commit) x 4 repetitions; after each repetition + mi_collect(true) the shim's mapping table is inspected: (1) no mapping outside arena areas survives except segment-map parts and arena descriptors, (2) unless purge_delay=-1 no page inside an arena is resident (mincore), (3) total mapped bytes and resident bytes do not grow from repetition r to r+1.",
         assumptions=COMMON_ASSUME + ["threads of the multi-threaded workloads run one after the other (deterministic schedule)", "bounded to 4 repetitions (the mapped-byte sequence is constant from repetition 1 on in every run, reported in the samples)"])
@@ -392,7 +393,8 @@ def run_C18(ctx):
             plan.append(("rel", "purge", [], envs(e, {"MIMALLOC_DISALLOW_ARENA_ALLOC": "1"})))
             plan.append(("rel", "purge", [], envs(e, {"MIMALLOC_ARENA_RESERVE": "64MiB"})))
         # a 4 GiB arena (two bitmap fields and more): the scenario with a huge segment across a field boundary only exists here
-        if m == "10" and (not q or d in ("0", "10")): plan.append(("rel", "purge", [], envs(e, {"MIMALLOC_ARENA_RESERVE": "4GiB"})))
+        if (m == "10" and d in ("0", "10")) or not q: plan.append(("rel", "purge", [], envs(e, {"MIMALLOC_ARENA_RESERVE": "4GiB"})))
+        if not q and d != "-1": plan.append(("sec", "purge", [], envs(e, {"MIMALLOC_ARENA_RESERVE": "4GiB"})))
         # lazily committed segments and arenas: a released page may coalesce with spans that were never committed
         if (not q or m == "10") and d != "-1":
             plan.append(("rel", "purge", [], envs(e, LAZY)))
@@ -505,6 +507,7 @@ def run_C09(ctx):
              ("rel", "E8", 2, 0, {"MIMALLOC_ARENA_RESERVE": "32MiB"}), ("dbg", "E8", 1, 0, {"MIMALLOC_ARENA_RESERVE": "32MiB"}),
              ("rel", "E9", 2, 0, {}), ("rel", "E9", 2, 0, NOARENA), ("rel", "E9", 1 if q else 2, 0, RF), ("dbg", "E9", 1, 0, {})]
     if not q: plan += [("rel", "E1", 3, 1, RF), ("rel", "E5", 3, 1, RF), ("sec", "E1", 2, 1, RF), ("dbg", "E3", 2, 0, NOARENA), ("rel", "E3", 2, 0, ALL)]
+    if not q: plan += [("rel", "E9", 3, 1, {}), ("rel", "E9", 3, 0, NOARENA), ("sec", "E9", 2, 0, RF), ("rel", "E8", 3, 0, {"MIMALLOC_ARENA_RESERVE": "32MiB"}), ("rel", "E7", 3, 0, {})]
     race = race_jobs(ctx, [(p, RF) for p in ("E1", "E2", "E3", "E4", "E5", "AB1")] + [("E1", {}), ("E2", NOARENA)])
     return conc_property(ctx, conc_jobs(ctx, plan), extra_jobs=race,
         rule=RACE_NOTE.strip() + " E9: the exiting thread owns two pages of one segment in different size classes; the block of the higher class is freed by another thread around the exit (that page is released during the exit, after the other page was abandoned): the segment must end up abandoned, not orphaned (final leak check). E8 (32 MiB arena reserve): the exiting thread leaves a small block in an arena segment and a 40 MiB block in a segment straight from the OS; a second thread frees the big one, then a forced collect of a third thread -- which walks the arena's abandoned segments first (the small block is still live) and then the list of abandoned OS segments -- must have returned its mapping. E7: two sub-processes (mi_subproc_new / mi_subproc_add_current_thread) with one abandoned arena segment each: a thread of the second one collects (its scan passes over the segment of the main sub-process), the last block of the second sub-process' segment is then freed by a thread of the main one, and a forced collect in the second sub-process has to find and release that segment; nothing may stay mapped. E6: three segments, two of them abandoned; a free adopts the most recently abandoned one, the third thread exits, then the block in the oldest abandoned segment is freed (with segments straight from the OS this exercises unlink-last / append / lookup on the list of abandoned OS segments); nothing may stay mapped. AB1: a forced collect visits (and purges) an abandoned segment while another thread adopts it by freeing one of its blocks and allocates in its pending-purge span; programs E1 (thread exit vs remote free of one of its blocks vs an allocation that may adopt), E2 (two segments left by finished threads; two threads allocate and free into them and may both adopt), E3 (forced abandonment through mi_collect_reduce with two segments vs remote frees into both), E4 (as E1 with the allocating thread in another sub-process), E5 (two remote frees into one abandoned segment, then both freeing threads allocate) x configurations {arena segments, OS segments (arenas disabled), reclaim-on-free on/off, visit_abandoned}. Oracle: blocks of the terminated thread keep their contents and can be freed by others; anything handed out after adoption is disjoint from all live blocks (two adopters would hand out the same memory); at the end, after all blocks are freed, all threads ended and the main thread force-collected, no arena block is in use or marked abandoned, the abandoned count is 0 and no segment-sized OS mapping is left.",
